@@ -164,6 +164,14 @@ def theorems_of(mod):
     return names
 
 
+TRANSLATOR_OUTPUT = {
+    "pest2lean.py": "OH.Generated.Grammar",
+    "tables2lean.py": "OH.Generated.Tables",
+    "countries2lean.py": "OH.Generated.Countries",
+    "shared_state_inventory.py": "OH.Generated.SharedState",
+}
+
+
 def run_translators():
     """regenerate OH/Generated/* from /repo (tie 1).  Returns list of (name, ok, message)."""
     res = []
@@ -181,10 +189,17 @@ def proof_side(pid, thorough):
     """returns dict(obligations=[names], discharged=[names], broken=[(name, why)], log=str)"""
     out = {"obligations": [], "discharged": [], "broken": [], "log": "", "checker_cmd": ""}
     tr = run_translators()
+    mods_short = PROPS[pid].get("props_modules", [pid])
+    # a translator that fails breaks the tie of the properties whose theorems import what it generates
+    # (its previous output stays in place for the others)
+    closure = set(import_closure([f"OH.Props.{ms}" for ms in mods_short]))
     for nm, ok, msg in tr:
         if not ok:
-            out["broken"].append((f"translator:{nm}", msg.strip().split("\n")[-1][:300]))
-    mods_short = PROPS[pid].get("props_modules", [pid])
+            gen = TRANSLATOR_OUTPUT.get(nm)
+            if gen is None or os.path.join(LEAN, *gen.split(".")) + ".lean" in closure:
+                out["broken"].append((f"translator:{nm}", msg.strip().split("\n")[-1][:300]))
+            else:
+                log(f"translator {nm} failed (does not feed {pid}'s theorems): {msg.strip()[-200:]}")
     hits = forbidden_scan([f"OH.Props.{ms}" for ms in mods_short])
     for h in hits:
         out["broken"].append(("forbidden-construct", h))
